@@ -69,6 +69,23 @@ def brute_force(tc, spec, rows, zs, semiring):
     return np.stack(out)
 
 
+def brute_force_per_output(tc, sc, spec, rows, zs, semiring):
+    """Every output is summed over Z intersected with its own scope (a variable an output does not
+    depend on contributes no factor)."""
+    base = real.evaluate(tc, common.input_array(rows, spec), semiring=semiring)
+    bf = np.array(base, copy=True)
+    groups = {}
+    for oi, o in enumerate(sc.outputs):
+        groups.setdefault(tuple(z for z in zs if z in sc.layer_scope(o)), []).append(oi)
+    for zo, ois in groups.items():
+        if not zo:
+            continue
+        part = brute_force(tc, spec, rows, list(zo), semiring)
+        for oi in ois:
+            bf[:, oi] = part[:, oi]
+    return bf
+
+
 def run_scenario(run: Run, scen: dict, rng: random.Random):
     spec, zs, semiring, fold, optimize = scen["spec"], scen["Z"], scen["semiring"], scen["fold"], scen["optimize"]
     sc = gen.build_circuit(spec)
